@@ -95,6 +95,47 @@ pub fn run(ctx: &'static Ctx) {
             m.fetch_add(1, Ordering::Relaxed);
         }
     }
+    // a builder obtained through Default, and one reused after core::mem::take (what is left behind is a Default value):
+    // both must behave like PackageBuilder::new()
+    {
+        use crate::aml::tree::{raw_of, real};
+        use acpi_tables::aml::PackageBuilder;
+        let mut extra = 0u64;
+        for l in lists.iter().filter(|l| l.len() <= 2).chain(std::iter::once(&vec![T::One; 255])) {
+            let want = catch(|| real(&T::Package(l.clone())));
+            let kids: Vec<_> = l.iter().map(raw_of).collect();
+            let via_default = catch(|| {
+                let mut b = PackageBuilder::default();
+                for k in &kids {
+                    b.add_element(k);
+                }
+                crate::util::ser(&b)
+            });
+            let via_take = catch(|| {
+                let mut b = PackageBuilder::new();
+                b.add_element(&acpi_tables::aml::ONES);
+                let first = core::mem::take(&mut b);
+                let _ = crate::util::ser(&first);
+                for k in &kids {
+                    b.add_element(k);
+                }
+                crate::util::ser(&b)
+            });
+            for (how, got) in [("PackageBuilder::default()", via_default), ("a builder reused after core::mem::take", via_take)] {
+                extra += 1;
+                ctx.tr(1);
+                if got != want {
+                    ctx.violation_sized(
+                        "alt:package:default-builder",
+                        l.len() as u64,
+                        || format!("package of {:?} through {}: {:?} ; Package::new gives {:?}", l.iter().take(3).collect::<Vec<_>>(), how, got.as_ref().map(|b| hex(&b[..b.len().min(16)])), want.as_ref().map(|b| hex(&b[..b.len().min(16)]))),
+                        || json!({"family":"alt-paths","what":how,"t":crate::props::c06::tjson(&T::Package(l.clone()))}),
+                    );
+                }
+            }
+        }
+        m.fetch_add(extra, Ordering::Relaxed);
+    }
     ctx.engine("E4.package-builder", json!({"pairs": m.load(Ordering::Relaxed), "element_counts": "0..=255 x 9 fillers; all lists <=3; nested"}));
 
     // ---- borrowed vs owned strings, every length 0..=300 (and a long one)
